@@ -99,9 +99,11 @@ def run_translator(pid):
 
 def coq_make(targets, timeout=1500, jobs=16):
     """make the given .vo targets (relative to coq/). Returns (ok, log)."""
+    # the lock only guards (re)generation of _CoqProject/Makefile; the per-property targets of
+    # different checks are disjoint apart from already-built common files, so make runs unlocked
     with Lock("coq"):
         write_coqproject()
-        rc, out, dt = sh(["make", "-j%d" % jobs] + targets, cwd=COQ, timeout=timeout)
+    rc, out, dt = sh(["make", "-j%d" % jobs] + targets, cwd=COQ, timeout=timeout)
     return rc == 0, out
 
 
